@@ -96,19 +96,43 @@ func TestVerifC01HTTPClientTable(t *testing.T) {
 		cli := &http.Client{Transport: tr, CheckRedirect: func(*http.Request, []*http.Request) error { return http.ErrUseLastResponse }}
 		return NewServiceWithClient(tag+"/"+name, cli), tr
 	}
+	hung := false
 	call := func(svc Service, tr *c01Transport, i int) (ran bool, err error) {
+		if hung {
+			return true, nil
+		}
 		before := tr.ran
 		var resp *http.Response
-		if i%2 == 0 {
-			resp, err = svc.Do(context.Background(), http.MethodGet, "http://c01.invalid/x", nil)
-		} else {
-			req, _ := http.NewRequest(http.MethodGet, "http://c01.invalid/y", nil)
-			resp, err = svc.DoRequest(req)
+		var cerr error
+		// a request through the service's breaker takes microseconds; a 5xx answer is a failure
+		// WITHOUT an error text (err == nil refused by the predicate)
+		finished := vk.Within(45*time.Second, func() {
+			if i%2 == 0 {
+				resp, cerr = svc.Do(context.Background(), http.MethodGet, "http://c01.invalid/x", nil)
+			} else {
+				req, _ := http.NewRequest(http.MethodGet, "http://c01.invalid/y", nil)
+				resp, cerr = svc.DoRequest(req)
+			}
+		})
+		if !finished {
+			hung = true
+			var parked []string
+			for _, b := range vk.GoroutinesIn("lib/breaker.") {
+				if strings.Contains(b, "sync.(*RWMutex)") || strings.Contains(b, "sync.(*Mutex)") || strings.Contains(b, "semacquire") {
+					parked = append(parked, b)
+				}
+			}
+			if len(parked) > 0 {
+				m.Violate("C01:call:hang", fmt.Sprintf("case=0;request #%d through httpc.Service (upstream status %d)", i, tr.status), "a request through the service's breaker did not return within 45s; %d goroutine(s) parked on a lock inside lib/breaker, first:\n%s", len(parked), parked[0])
+			} else {
+				m.Inconclusive("a request through httpc.Service did not return within 45s and no goroutine is parked in lib/breaker")
+			}
+			return true, nil
 		}
 		if resp != nil && resp.Body != nil {
 			_ = resp.Body.Close()
 		}
-		return tr.ran > before, err
+		return tr.ran > before, cerr
 	}
 	for s := 100; s <= 499; s++ {
 		svc, tr := newSvc(fmt.Sprint("b", s))
@@ -179,6 +203,9 @@ func TestVerifC01HTTPClientTable(t *testing.T) {
 		bad := false
 		for i := 0; i < perBad; i++ {
 			ran, err := call(svc, tr, i)
+			if hung {
+				return
+			}
 			m.Count("calls_failing", 1)
 			if ran && err == breaker.ErrServiceUnavailable {
 				m.Violate("C01:reject:req-ran", desc, "call #%d invoked the transport and still returned ErrServiceUnavailable", i)
